@@ -1027,7 +1027,10 @@ func (fr *Frame) callSiteClauses(n *vnode, instr *ssa.Call, callee *ssa.Function
 		if i := strings.LastIndex(cn, "/"); i >= 0 {
 			cn = cn[i+1:]
 		}
-		x.vc.Oblige("assert", fmt.Sprintf("assert.%s.%d#%d", cn, ai, ord), n.reach, t, x.pos(instr.Pos()), as.C.Text)
+		ob := x.vc.Oblige("assert", fmt.Sprintf("assert.%s.%d#%d", cn, ai, ord), n.reach, t, x.pos(instr.Pos()), as.C.Text)
+		fr.extraNames = en
+		ob.Env = fr.specEnv(n, cloneHeap(n.heap)) // for input classes of known findings
+		fr.extraNames = save
 		x.vc.Assume(Implies(n.reach, t))
 	}
 }
